@@ -2032,3 +2032,33 @@ Proof. intros n v. apply has_default_not_intrinsic. destruct v; reflexivity. Qed
 Lemma has_default_integer_nonzero : forall n q, Z.eqb (Qnum q) 0 = false ->
   has_default (Some (DInteger n)) (Some (JFlt q)) = PDefault (JFlt q).
 Proof. intros n q H. apply has_default_not_intrinsic. cbn. exact H. Qed.
+
+(* ================================================================== map defaults: every key is validated *)
+(* whatever the kind of the key entry (String, a constrained-string newtype, a string ENUM, a native ...), every key of a
+   non-empty map default is validated against it -- as the JSON string it is -- and every value against the value entry *)
+Lemma map_keys_validated : forall re T f t kt vt m k,
+  get_det T t = Some (DMap kt vt) -> m <> [] ->
+  validate_value re T (S f) t (JObj m) = ROk k ->
+  forall key x, In (key, x) m ->
+    (exists k1, validate_value re T f kt (JStr key) = ROk k1) /\ (exists k2, validate_value re T f vt x = ROk k2).
+Proof.
+  intros re T f t kt vt m k Hg Hne H key x Hin. cbn [validate_value] in H. rewrite Hg in H. cbn [validate_det] in H.
+  destruct m as [|y m]; [exfalso; apply Hne; reflexivity|].
+  destruct (get_det T kt); [|discriminate H]. destruct (get_det T vt); [|discriminate H].
+  apply rbind_ok in H. destruct H as [uu [Hu _]]. destruct uu.
+  destruct (each_ok_in _ _ _ _ Hu (key, x) Hin) as [k' Hk]. cbn beta iota in Hk.
+  apply rbind_ok in Hk. destruct Hk as [k1 [Hk1 Hk2]]. split; eauto.
+Qed.
+
+(* in particular a key outside a string-enum key type is rejected *)
+Definition Tmk : space := mk_space [
+  (1, ent (DInteger (u "i64")));
+  (2, ent (DEnum (u "Key") None TagExternal [mkVariant (u "cpu") (u "Cpu") VSimple; mkVariant (u "memory") (u "Memory") VSimple] false []));
+  (3, ent (DMap 2 1))
+]%N.
+Lemma map_keys_example :
+  validate_value re0 Tmk 3 3 (JObj [(u "cpu", JInt 1)]) = ROk KSpecific /\
+  validate_value re0 Tmk 3 3 (JObj [(u "disk", JInt 1)]) = RErr /\
+  validate_value re0 Tmk 3 3 (JObj [(u "cpu", JInt 1); (u "disk", JInt 2)]) = RErr /\
+  validate_value re0 Tmk 3 3 (JObj []) = ROk KIntrinsic.
+Proof. repeat split; vm_compute; reflexivity. Qed.
